@@ -40,7 +40,7 @@ META = dict(
         "reals instead of floats; sqrt of a symbolic argument is an uninterpreted function with the sound axioms s >= 0, s*s = x",
         "0 <= t (<= total steps for the detector condition, whose window arithmetic the loop never evaluates beyond that)",
         "threshold > 0, min_steps >= 0, and for the detector condition min_steps >= (prev_periods+1)*spp as its _validate demands",
-        "min_steps <= max_steps (otherwise the two documented promises contradict each other)",
+        "min_steps may exceed max_steps (e.g. the default min_steps = 0.1*total with a small explicit max_steps): the statement makes the maximum unconditional, so it wins",
         "detector convergence value (continue <=> spectral distance >= threshold) only for samples-per-period 2 (DFT twiddles exact, all bins real; with spp = 4 the nested sqrt terms leave z3 'unknown'); the distance oracle is compared in squared form",
         "DetectorConvergenceCondition is traced with an int64 time step: under jax_enable_x64 its dynamic_slice call rejects the int32 step the real loop carries (TypeError), so its end-to-end run through run_fdtd is not exercised here",
         "loop layer: the stop predicate is an arbitrary function of the time step only (a symbolic table); gradient_config=None as run_fdtd requires for custom conditions",
@@ -190,7 +190,7 @@ def _energy(c, case):
         c.notes.append("energy term not abstracted (predicate's energy term differs syntactically from compute_energy's)")
     mn_eff = mn if mn_given else z3.IntVal(dflt_min)
     mx_eff = mx if mx_given else z3.IntVal(T)
-    assume = [t >= 0, t <= 2**31 - 1, thr > 0, mn_eff >= 0, mn_eff <= mx_eff, mx_eff <= 2**31 - 1] + [cnd for (_, cnd, _) in it.side]
+    assume = [t >= 0, t <= 2**31 - 1, thr > 0, mn_eff >= 0, mx_eff >= 0, mx_eff <= 2**31 - 1]  # min_steps may exceed max_steps: the maximum wins + [cnd for (_, cnd, _) in it.side]
     if abstracted:
         assume.append(en_var >= 0)
 
@@ -321,7 +321,7 @@ def _detector(c, case):
     cont = _zbool(out)
     mn_eff = mn if mn_given else z3.IntVal(need)
     mx_eff = mx if mx_given else z3.IntVal(T)
-    assume = [t >= 0, t <= T, thr > 0, mn_eff >= need, mn_eff <= mx_eff, mx_eff <= 2**31 - 1]
+    assume = [t >= 0, t <= T, thr > 0, mn_eff >= need, mx_eff >= 0, mx_eff <= 2**31 - 1]  # min_steps may exceed max_steps: the maximum wins
     assume += [a for a in sc.UF.axioms()]
 
     rng = np.random.default_rng(c.seed + 11)
@@ -369,7 +369,7 @@ def _detector(c, case):
     if ok:
         c.prove("t >= max_steps => stop", z3.Implies(t >= mx_eff, z3.Not(cont)), assume, replay, key=kmax)
     c.prove("t >= total steps (>= min_steps) => stop", z3.Implies(z3.And(t >= T, mn_eff <= T), z3.Not(cont)), assume, replay, key=f"detector:total-steps:{tag}")
-    c.prove("t < min_steps => continue", z3.Implies(t < mn_eff, cont), assume, replay, key=f"detector:min_steps:{tag}")
+    c.prove("t < min_steps (and < max_steps, < total steps) => continue", z3.Implies(z3.And(t < mn_eff, t < mx_eff, t < T), cont), assume, replay, key=f"detector:min_steps:{tag}")
     # vacuity twins on guided sub-domains (existence claims: restricting the trace is sound and keeps z3 away from a
     # free search through the sqrt terms): a non-periodic trace keeps running, an exactly periodic one has converged
     periodic = [thr == 1] + [R[i, 0] == Fraction((i % spp) * (i % spp) + 1, 4) for i in range(T)]
